@@ -528,6 +528,37 @@ func (x *Exec) specCallExpr(env *SpecEnv, e *SExpr) Value {
 			return BoolV{App("reqcookie_has", SBool, x.asTermAny(x.specEval(env, e.Args[0])), x.strID(env.st, x.specEval(env, e.Args[1]).(StrV)))}
 		case "cookie_val":
 			return IntV{App("reqcookie_val", SInt, x.asTermAny(x.specEval(env, e.Args[0])), x.strID(env.st, x.specEval(env, e.Args[1]).(StrV)))}
+		case "jsonenc":
+			return IntV{App("jsonenc", SInt, x.identityOf(env.st, x.specEval(env, e.Args[0])))}
+		case "gocalls":
+			return IntV{Select(env.st.ghostArr("gocount", SInt), x.asTermAny(x.specEval(env, e.Args[0])))}
+		case "golastarg":
+			return IntV{Select(env.st.ghostArr("golastarg", SInt), x.asTermAny(x.specEval(env, e.Args[0])))}
+		case "aset":
+			av, ok := x.specEval(env, e.Args[0]).(StructV)
+			if !ok {
+				x.specFail("aset expects an atomics.Value")
+			}
+			p, ok := av.F["v"].(PtrV)
+			if !ok {
+				x.specFail("aset: no pointer field v")
+			}
+			return BoolV{And(Ne(p.Addr, IntLit(0)), Select(env.st.heapArr("atomicValue#set", SBool), p.Addr))}
+		case "aload":
+			// aload(a): current content of an atomics.Value[X] (field v *atomic.Value)
+			av, ok := x.specEval(env, e.Args[0]).(StructV)
+			if !ok {
+				x.specFail("aload expects an atomics.Value")
+			}
+			named, ok := types.Unalias(av.Type).(*types.Named)
+			if !ok || named.TypeArgs() == nil || named.TypeArgs().Len() != 1 {
+				x.specFail("aload: not an instantiated atomics.Value")
+			}
+			p, ok := av.F["v"].(PtrV)
+			if !ok {
+				x.specFail("aload: no pointer field v")
+			}
+			return x.atomicLoad(env.st, p.Addr, x.resolveType(named.TypeArgs().At(0)))
 		case "keyid":
 			return IntV{x.keyTerm(env.st, x.specEval(env, e.Args[0]))}
 		case "allocated":
